@@ -3,8 +3,8 @@
     Strings are lists of character codes. *)
 From Coq Require Import NArith ZArith List Lia Bool.
 Import ListNotations.
-Open Scope N_scope.
-Ltac Zify.zify_post_hook ::= Z.div_mod_to_equations.
+Local Open Scope N_scope.
+Local Ltac Zify.zify_post_hook ::= Z.div_mod_to_equations.
 
 Fixpoint ck_lex_lt (a b : list N) : bool :=
   match a, b with
